@@ -29,7 +29,14 @@ def infoset(xml_bytes):
                     children[-1][-1] += c.tail or ""
                 else:
                     text += c.tail or ""
-        return [e.tag, sorted((k, v) for k, v in e.attrib.items()), text, children]
+        attrs = []
+        for k, v in e.attrib.items():
+            if k == XSI_TYPE:                    # a QName: compare what it denotes, not how it is spelled
+                pfx, _, loc = v.strip().rpartition(":")
+                uri = e.nsmap.get(pfx or None)
+                v = ("{%s}%s" % (uri, loc)) if uri else loc
+            attrs.append((k, v))
+        return [e.tag, sorted(attrs), text, children]
     return conv(root)
 
 
